@@ -6,7 +6,7 @@ set -u
 ID=$1; DIFF=$(readlink -f "$2"); DEMO=$(readlink -f "$3")
 WT=/tmp/mutrepo_$$; VC=/tmp/mutverif_$$
 git -C /repo worktree add -q "$WT" HEAD || exit 9
-rsync -a --exclude .git --exclude work --exclude replays /verif/ "$VC"/ && mkdir -p "$VC/replays"
+rsync -a --exclude .git --exclude work --exclude replays "${VERIF_SRC:-/verif}"/ "$VC"/ && mkdir -p "$VC/replays"
 trap 'git -C /repo worktree remove --force "$WT" >/dev/null 2>&1; rm -rf "$VC"' EXIT
 cd "$WT"
 PYTHONPATH=$WT/src /venv/bin/python "$DEMO" >/dev/null 2>&1; echo "demo on clean tree: exit $?"
